@@ -24,7 +24,11 @@ RULE = ("token case = (account, password over printable ASCII incl. + & = % spac
         "are registered under udpid(id, little) or udpid(id, big): Device.token/key must equal the registered ones and the device must be "
         "authenticated and refreshed. distinct = case parameters; all non-trivial")
 ASSUMPTIONS = ["no offline ground truth of the real server exists: the model is a second implementation of the documented algorithm, checked on the wire form",
-               "credentials are ASCII (the client encodes them as ASCII)", "near-miss ids never differ from the requested id by letter case only"]
+               "credentials are ASCII (the client encodes them as ASCII)", "near-miss ids never differ from the requested id by letter case only",
+               "for the end-to-end cases the service answers an id it does not know with invented credentials (as the real service does); a service "
+               "that answers with an empty list is generated only for devices registered under the little-endian id (asked for first) - with such a "
+               "service the unchanged client gives up before trying the big-endian id, which is outside what can be checked against a real service offline",
+               "a request that times out keeps the caller waiting 10 s of loop time, so the wall clock has moved on when it is resent"]
 ANCHORS = ["cloud.py:NetHomePlusCloud._Security.sign", "cloud.py:NetHomePlusCloud._Security.encrypt_password", "cloud.py:NetHomePlusCloud._api_request",
            "cloud.py:BaseCloud.get_token", "cloud.py:BaseCloud._post_request", "cloud.py:NetHomePlusCloud.login", "discover.py:Discover._authenticate_device"]
 MIN_NONTRIVIAL = {"quick": 1500, "thorough": 30000}
